@@ -232,9 +232,7 @@ theorem walk_fi (P : FP) : ∀ (f : Nat) (t : Tracker) (src : Nat) (blk : Nat ×
             · simp only [Option.some.injEq, Prod.mk.injEq] at hr; rw [← hr.1, ← hr.2]; exact ⟨hfi1, hev1⟩
             · cases hr
           · cases hr
-          · split at hr
-            · exact hgo t' ev' hr
-            · cases hr
+          · exact hgo t' ev' hr
           · exact hgo t' ev' hr
           · exact hgo t' ev' hr
 
@@ -345,9 +343,7 @@ theorem markNotarized_fi (P : FP) (t : Tracker) (blk : Nat × Nat) (h : FI P t) 
     · split
       · exact ⟨h, EvS.empty P⟩
       · trivial
-    · split
-      · exact ⟨h, EvS.empty P⟩
-      · trivial
+    · exact ⟨h, EvS.empty P⟩
     · exact ⟨h, EvS.empty P⟩
     · rename_i hp
       have hL : P.L blk := P.direct blk hN (h.pend _ hp)
